@@ -20,6 +20,7 @@ import (
 	"sync"
 	"testing"
 
+	"github.com/emmansun/gmsm/sm3"
 	"github.com/emmansun/gmsm/sm9"
 	"verif/harness/gen"
 	"verif/harness/h"
@@ -29,7 +30,28 @@ import (
 func TestMain(m *testing.M) {
 	h.Observe("build", buildVariant)
 	h.Observe("GODEBUG", os.Getenv("GODEBUG"))
+	observeKDF()
 	h.Main(m, ref.SelfTestSM3, func() error { return ref.SelfTestSM4(false) }, selfTestHash, selfTestModes)
+}
+
+// observeKDF records which SM3-KDF path this process runs: the multi-lane paths
+// allocate whole digest blocks and return a prefix, the serial path allocates
+// exactly the requested length.
+func observeKDF() {
+	defer func() {
+		if p := recover(); p != nil {
+			h.Observe("sm3_kdf_path", fmt.Sprintf("probe panicked: %v", p))
+		}
+	}()
+	o := sm3.Kdf([]byte("tier probe"), 129)
+	switch cap(o) {
+	case 129:
+		h.Observe("sm3_kdf_path", "generic serial path (cap(Kdf(z,129)) == 129)")
+	case 160:
+		h.Observe("sm3_kdf_path", "multi-lane path (cap(Kdf(z,129)) == 160 = 5 blocks)")
+	default:
+		h.Observe("sm3_kdf_path", fmt.Sprintf("unknown (cap(Kdf(z,129)) == %d)", cap(o)))
+	}
 }
 
 // ---------------------------------------------------------------- memo
